@@ -13,6 +13,10 @@ NOTE_PARTIAL = ("the theorems in coq/fs/%s.v are about named mechanisms of the l
                 "proved lemmas + trace-exact correspondence + spec oracle on the implementation")
 
 PROOF_LEVEL = {
+    "C01": "C01_history_model is a theorem about the layer-B model: for any history of API calls (all 26 operations interleaved, any number of files, every outcome) an executable byte-array spec predicts every read/length/offset/eof/seek/flush/close result and ends with the API's view of every file, position by position (writes splice, truncation empties, append starts at the end, one key per write = isolation); step_content proved per operation; D23 (clip at 4 GiB - 1) is encoded in the spec as the crate behaves and recorded as a finding. The run-time oracle replays the byte-array model on the implementation's results",
+    "C02": "C02_history_model / C02_flushed_stays_model / C02_untouched_history_model are theorems about the layer-B model: what a fresh mount of the raw medium shows (disk_view, a function of the raw disk) at the slot of a flushed/closed file is exactly the API's view at the flush - name, attribute, creation time, modification time = rounded clock of the last write, bytes - until a later call modifies that file; untouched files and untouched raw directory slots are unchanged through any history. Recorded findings: D24 (zero creation-date fields re-encoded) and D29 (0xE5 names). The run-time oracle re-reads the implementation's medium with an independent FAT reader",
+    "C10": "C10_history is a theorem about the layer-B model: in any history of API calls, the medium after every prefix of the block-write sequence of every call (read off the device log; writes atomic and ordered) satisfies the crash invariant crash_inv (tree over the raw disk, unique names, clean tails, dot entries, chains sound and pairwise disjoint, sub-directories with initialised clusters; residue = lost chains and one stale size), whatever the free clusters held; step_crash proved for all 26 operations and outcomes. The extracted sound decider crash_inv_fast and the independent python checker both run on the implementation's crashed media. Not covered by a theorem: that the mount call itself succeeds on the crashed medium (region theorem: MBR/boot sector unchanged)",
+    "C09": "C09_history is a theorem about the layer-B model: a file present on the medium (path, entry, bytes) is present unchanged between calls and on every crashed medium of every later call of any history until a call targets it (op_targets); step_keeps_flushed proved for all 26 operations; with the C02 flush theorem (a successful flush/close puts exactly the API's view on the medium) this is the property for the model. The python oracle replays every prefix of the implementation's write log and re-reads flushed files with an independent reader",
     "C16": "C16_history (mirroring of every FAT copy, truthful-stays-truthful, unknown-stays-unknown, hint unknown or in range - after every call of every history of API calls) and C16_history_flush (the FAT32 information sector after a flush/close of a dirty file holds exactly the in-memory record: the number of free FAT entries when the count was truthful, untouched when unknown) are theorems about the layer-B model; the mount code establishes the hint range (C16_mount_hint_in_range, D40 repaired); no call panics or fails for want of space while a free entry exists whatever record was found at mount (C03_history, PrAlloc/PrCount). Recorded finding: stale-hint-kept",
     "C03": "C03_history / C03_after_every_call / C03_sound_after_history are theorems about the layer-B model for every history of API calls (all 26 operations, every outcome incl. refusals, DiskFull and NotEnoughSpace half-way failures): the global invariant fs_inv - directory tree over the raw disk, unique names, clean tail after the end marker, dot entries, chains in range / acyclic / end-marked / never through free-reserved-bad entries / pairwise disjoint / long enough for the size, pending chains of open files - holds after every call. Scope stated in the theorems: one mounted volume, no device faults, names outside the recorded class D29, fewer than 2^32 handle generations. The tie to the crate is the trace-exact correspondence; the extracted decider fs_inv_b (sound: fs_inv_b_sound) and the independent python checker both run on the implementation's images",
     "C04": "C04_history is a theorem about the layer-B model for every history of API calls: the complete device-write list lies in the regions of the volume (FAT copies, FAT16 root region, data area, FAT32 information sector; C04_regions_not_outside: never MBR, boot sector, other partition, past the last cluster); C04_mount_layout / C04_open_volume_layout derive the region map from the checks of the mount code; per-call byte frames (slot, FAT entry, high nibble, info-sector fields, data range) are the C04_*_frame theorems. Recorded finding: the partition size is not compared with the BPB total (D38)",
@@ -1197,6 +1201,66 @@ def c10_one(sc):
             break
     return out, npoints
 
+def _coq_crash_one(args):
+    model, sc, tmp, maxpts = args
+    out = dict(name=sc["name"], first=None, bad=None, n=0)
+    try:
+        tr = O.Trace(sc)
+        slot = str(sc["meta"]["slot"])
+        def ck(dev, tag):
+            path = os.path.join(tmp, "%s.%s.crash.img" % (sc["name"], tag))
+            with open(path, "w") as fh:
+                for i in sorted(dev):
+                    fh.write("%d %s\n" % (i, dev[i].hex()))
+            rc, txt = V.sh([model, "crashck", path, slot], timeout=120)
+            os.remove(path)
+            return txt.strip().split()[-1] if txt.strip() else "error"
+        out["first"] = ck(sc["meta"]["dev0"], "init")
+        if out["first"] != "ok":
+            return out
+        pts = list((k, j) for k in range(len(tr.ops)) for j in range(len(tr.writes.get(k, []))))
+        step = max(1, len(pts) // maxpts)
+        want = set(pts[::step][:maxpts])
+        for k, j, dev in prefix_images(tr, sc["meta"]["dev0"]):
+            if (k, j) not in want:
+                continue
+            out["n"] += 1
+            if ck(dev, "%d-%d" % (k, j)) == "bad":
+                out["bad"] = (k, j)
+                break
+    except subprocess.TimeoutExpired:
+        out["timeout"] = True
+    except Exception as e:
+        out["error"] = repr(e)
+    return out
+
+def coq_crashck(run, env, scripts, maxpts):
+    """the extracted decider of the crash invariant (PrFsck2.crash_inv_fast, sound) on the IMPLEMENTATION's crashed media:
+    the medium after a sample of the prefixes of its block-write log.  Images the decider rejects before the first
+    write are outside the scope of C10_history (counted, not judged)."""
+    from concurrent.futures import ThreadPoolExecutor
+    todo = [sc for sc in scripts if not sc["faults"] and sc.get("impl")]
+    with ThreadPoolExecutor(V.NPROC) as ex:
+        res = list(ex.map(_coq_crash_one, [(env.model, sc, env.tmp, maxpts) for sc in todo]))
+    stats = collections.Counter()
+    bad = 0
+    for sc, r in zip(todo, res):
+        if r.get("timeout"):
+            stats["decider_timeout"] += 1; continue
+        if r.get("error"):
+            stats["decider_error"] += 1; run.notes.append("coq crash decider failed on %s: %s" % (sc["name"], r["error"])); continue
+        if r["first"] != "ok":
+            stats["image_outside_scope_" + str(r["first"])] += 1; continue
+        stats["in_scope"] += 1
+        stats["crashed_media_decided"] += r["n"]
+        if r["bad"] and bad < 2:
+            bad += 1
+            k, j = r["bad"]
+            run.violation("a power cut leaves corruption, not just lost clusters: the extracted decider of crash_inv rejects the implementation's medium after write %d of op %d (%s)" % (j, k, sc["ops"][k] if k < len(sc["ops"]) else "?"),
+                          env.replay_text(sc, "coq crash decider: bad after write %d of op %d" % (j, k)))
+    run.coverage["coq_crash_decider"] = dict(stats)
+    return bad
+
 def check_C10(run, replay=None):
     env = F.Env(run, "C10.v")
     if not env.ok:
@@ -1219,6 +1283,8 @@ def check_C10(run, replay=None):
             bad += report_oracle(run, env, sc, out, "a power cut leaves corruption, not just lost clusters")
     run.coverage["crash_points_checked"] = npoints
     common_tail(run, env, run.coverage.get("theorems", []))
+    small = [sc for sc in env.scripts if sc["meta"].get("N", 0) <= 6000]
+    coq_crashck(run, env, small if run.tier == "thorough" else small[:24], 60 if run.tier == "thorough" else 16)
     return finish(run, env, "C10", "every prefix of the implementation's block-write sequence of every mutating operation, on volumes whose free clusters hold stale directory-looking contents; oracle = independent checker tolerant of lost clusters and stale sizes only (chains in range/acyclic/terminated/disjoint, sub-directory entries with their own cluster, no stale slot exposed, nothing after the end marker)")
 
 # ============================================================================ C11 (faults)
